@@ -469,9 +469,13 @@ func main() {
 					if r.Chance(1, 5) && ts.Len() > 0 { // update an existing key
 						idx := r.Intn(ts.Len())
 						n := 0
-						ts.Walk(func(kk, _ string) bool {
+						sameValue := r.Chance(1, 3) // re-insert a member with the value it already has: still moves to the front
+						ts.Walk(func(kk, vv string) bool {
 							if n == idx {
 								k = kk
+								if sameValue {
+									v = vv
+								}
 								return false
 							}
 							n++
